@@ -197,6 +197,24 @@ def gen_case(world, tier, prop):
     r = rng.random()
     if depth >= 3:
       return const_child(2)
+    if r < 0.08 and depth <= 1:
+      # several sibling sub-containers that EACH hold a factory
+      branches = []
+      for _ in range(rng.randint(2, 3)):
+        inner = [factory(depth + 1)] + ([const_child(1)] if rng.random() < 0.5 else [])
+        rng.shuffle(inner)
+        kind = rng.choice(['list', 'tuple', 'dict'])
+        b = ({'dict': [['i%d' % j, it] for j, it in enumerate(inner)]}
+             if kind == 'dict' else {kind: inner})
+        b['id'] = new_id()
+        branches.append(b)
+      if rng.random() < 0.3:
+        branches.insert(rng.randrange(len(branches) + 1), const_child(1))
+      kind = rng.choice(['list', 'dict', 'tuple'])
+      d = ({'dict': [['b%d' % j, it] for j, it in enumerate(branches)]}
+           if kind == 'dict' else {kind: branches})
+      d['id'] = new_id()
+      return d
     if r < 0.40:
       return const_child()
     if r < 0.70:
